@@ -65,7 +65,8 @@ func handCases(prop, tier string, seed uint64) []Case {
 		pb, _ := json.Marshal(handP{Cfg: cfg, Init: init, Flag: flag, Witness: id, Ops: ops})
 		cases = append(cases, Case{ID: "c14-witness-" + id, Seed: 7, Kind: "witness:" + id, P: pb})
 	}
-	wit("memcache-inplace-write", plainM, 13, os.O_RDWR, []HOp{{K: "write", N: 2, DSeed: 5}})
+	pbm, _ := json.Marshal(handP{Cfg: plainM, Init: 13, Flag: os.O_RDWR, Ops: []HOp{{K: "write", N: 2, DSeed: 5}}})
+	cases = append(cases, Case{ID: "c14-regress-memcache-inplace-write", Seed: 7, Kind: "random", P: pbm})
 	wit("seek-past-eof-readmode", plainF, 10, os.O_RDONLY, []HOp{{K: "seek", Off: 15, Wh: 0}, {K: "seek", Off: 0, Wh: 1}})
 	inits := []int{-1, 0, 1, 10, 511, 512, 513, 2000, 10241}
 	for i := 0; i < n; i++ {
@@ -161,7 +162,6 @@ func handRun(prop, tier string, c Case, w *Worker) (res Result) {
 		return
 	}
 	mh := NewMHandle(node, p.Flag)
-	mem := cfg.WC == "memory"
 	// stfs is in "write mode" (content in the write cache) once a write-ish call succeeded, or right away for O_TRUNC on a non-empty file
 	writeMode := p.Flag&os.O_TRUNC != 0 && mh.Write && p.Init > 0
 	nsteps := p.Steps
@@ -226,17 +226,13 @@ func handRun(prop, tier string, c Case, w *Worker) (res Result) {
 				}
 				// steer around open findings: in read mode a seek past the end loses the position; the memory write cache cannot hold a cursor past the end
 				dst := tgt
-				if dst > size() && (!writeMode || mem) {
+				if dst > size() && !writeMode {
 					continue
 				}
 			case "write", "writestring":
 				op.N, op.DSeed = []int{0, 1, 7, 100, 513, 1500}[r.Intn(6)], r.Uint64()
 				if op.N == 0 && !mh.Write {
 					op.N = 1 // zero-length writes without write access are reference-ambiguous (the kernel accepts them)
-				}
-				if mem && mh.Write && !mh.Append && mh.Pos != size() {
-					// memory write cache truncates at the cursor (open finding): only append-at-end writes are generated
-					op = HOp{K: "seek", Off: 0, Wh: 2}
 				}
 			case "writeat":
 				op.N, op.Off, op.DSeed = []int{0, 1, 7, 100, 513}[r.Intn(5)], pickOff(), r.Uint64()
@@ -245,9 +241,6 @@ func handRun(prop, tier string, c Case, w *Worker) (res Result) {
 				}
 				if mh.Append {
 					continue // os.File refuses WriteAt on O_APPEND handles, in-memory references accept it: reference-ambiguous
-				}
-				if mem && op.Off != size() && op.Off >= 0 {
-					op.Off = size()
 				}
 			case "truncate":
 				op.Off = pickOff()
@@ -393,7 +386,7 @@ func handRun(prop, tier string, c Case, w *Worker) (res Result) {
 				effects++
 				// the cursor after WriteAt is reference-ambiguous: pin it
 				tgt := size()
-				if r.Intn(2) == 0 && !mem {
+				if r.Intn(2) == 0 {
 					tgt = int64(r.Intn(int(size()) + 1))
 				}
 				done = append(done, fmt.Sprintf("Seek(%d,0)", tgt))
@@ -414,14 +407,6 @@ func handRun(prop, tier string, c Case, w *Worker) (res Result) {
 			if err == nil {
 				writeMode = true
 				effects++
-				if mem && mh.Pos > size() {
-					done = append(done, "Seek(0,2)")
-					if _, err := fh.Seek(0, 2); err != nil {
-						viol("seek|after-truncate", "Seek(0,End): %v", err)
-						return
-					}
-					mh.DoSeek(0, 2)
-				}
 			}
 		case "sync":
 			if err := fh.Sync(); err != nil {
